@@ -41,6 +41,8 @@ Programs ==
      tti    |-> [cfg |-> Cf(2, None, 1, FALSE), progs |-> <<<<I(1,1,1), G(1), ADV(1)>>, <<I(2,1,1), G(1), SY>>>>],
      three  |-> [cfg |-> Cf(1, None, None, FALSE), progs |-> <<<<I(1,1,1)>>, <<I(2,1,1), G(1)>>, <<X(1), G(1)>>>>],
      three2 |-> [cfg |-> Cf(2, None, None, FALSE), progs |-> <<<<I(1,1,1), G(2)>>, <<I(2,1,2), G(1)>>, <<I(3,1,1), SY>>>>],
+     iax    |-> [cfg |-> Cf(2, None, None, FALSE),
+                 progs |-> <<<<I(1,1,1), ADV(1), XA, G(1)>>, <<G(1), I(2,2,1), G(1)>>>>],
      ttix   |-> [cfg |-> Cf(2, None, 2, FALSE),
                  progs |-> <<<<I(1,1,1), SY, ADV(1), G(1), ADV(1), X(1), SY, G(1)>>, <<G(1)>>>>],
      grow   |-> [cfg |-> Cf(2, None, None, TRUE),
@@ -80,9 +82,9 @@ StepT(t) ==
            starting == th.pc = ""
            g2 == Step(g, t)
            finished == g2.th[t].ip > th.ip
-           inv == [ev |-> "Inv", t |-> t, id |-> OpId(t, th.ip), op |-> o.op,
+           inv == [ev |-> "Inv", t |-> t, id |-> OpId(t, th.ip), op |-> o.op, now |-> g.s.now,
                    k |-> IF "k" \in DOMAIN o THEN o.k ELSE 0, v |-> IF "v" \in DOMAIN o THEN o.v ELSE 0]
-           ret == [ev |-> "Ret", t |-> t, id |-> OpId(t, th.ip), r |-> g2.th[t].res]
+           ret == [ev |-> "Ret", t |-> t, id |-> OpId(t, th.ip), r |-> g2.th[t].res, now |-> g2.s.now]
            ps1 == IF starting THEN P02Update(ps, inv) ELSE ps
            okr == ~finished \/ Allowed_C02(ps1, ret)
            ps2 == IF finished THEN P02Update(ps1, ret) ELSE ps1
